@@ -768,6 +768,9 @@ func (c *CondState) Wait(mu lockable, unlock func()) {
 	if s.aborting {
 		runtime.Goexit()
 	}
+	// joining the wait list is an operation of its own: a Broadcast/Signal issued without the lock can fall
+	// between the caller's last check and this registration (the classic lost wake-up)
+	Point()
 	w := &condWaiter{mu: mu, cond: &c.clk}
 	c.waiters = append(c.waiters, w)
 	Touch(&c.clk, true)
